@@ -903,11 +903,19 @@ func chIsClosed(ch <-chan struct{}) bool {
 // q is the internal implementation of queue that writes the ModifyRequest to
 // the channel to be sent.
 func (c *Client) q(m *spb.ModifyRequest) {
+	// The awaiting lock must not be held whilst waiting for space in modifyCh. The
+	// sender takes a read lock to send each message, and a read lock cannot be
+	// acquired once AwaitConverged is waiting for the write lock - such that holding
+	// a read lock here whilst the channel is full deadlocks the enqueuer, the sender
+	// and AwaitConverged. The operations within m are already in the pending queue
+	// (or m is still in the send queue) so the client cannot be considered converged
+	// whilst m is waiting to be written to the channel.
 	c.awaiting.RLock()
-	defer c.awaiting.RUnlock()
-
 	verifPoint("client.q.beforeClosedCheck")
-	if !chIsClosed(c.sendExitCh) {
+	exited := chIsClosed(c.sendExitCh)
+	c.awaiting.RUnlock()
+
+	if !exited {
 		verifPoint("client.q.beforeSend")
 		c.qs.modifyCh <- m
 	}
